@@ -6,8 +6,8 @@
    new_eq, propagate(p), check(), push, pop) whose environment inputs respect `ok_event` (proofs/LraInv_Proofs.v):
    relations are requested at root level with canonical arguments over existing variables and a fresh propositional
    variable; propagate(p) is called with a literal that is true in the assignment passed; the public new_var(lin) is
-   called at root level with an expression without known term over non-basic variables (lin_ok; the calls made by
-   new_lt..new_gt satisfy it: C09_internal_new_var_calls_ok; without it: C09_new_var_lin_unguarded_refuted).
+   called at root level with a canonical expression over existing variables (lin_ok; known terms and basic variables are
+   allowed since fix 8c419ea, which the model follows); set_lb / set_ub are called at root level with the TRUE literal.
    `all_atoms s` are the bound atoms currently asserted (delivered by propagate and not yet popped). *)
 From Coq Require Import QArith List Bool Arith.
 From ORatio Require Import smt.Lra smt.LraSem smt.LraCheck proofs.LraCheck_Proofs proofs.LraBase_Proofs proofs.LraTab_Proofs proofs.LraInv_Proofs proofs.LraThm_Proofs proofs.LraRel_Proofs proofs.LraTop_Proofs.
@@ -128,15 +128,26 @@ Theorem C09_pop_keeps_values_on_rows : forall s, reach s -> forall d, sat_rows (
 Proof. exact top_pop_keeps_solution. Qed.
 Print Assumptions C09_pop_keeps_values_on_rows.
 
-(* the precondition of the public new_var(const lin&) *)
+(* the calls new_lt .. new_gt make on new_var(const lin&) satisfy its precondition *)
 Theorem C09_internal_new_var_calls_ok : forall s a b, reach s -> rel_args_ok s a b -> lin_ok s (rel_expr s a b).
 Proof. exact top_internal_calls_ok. Qed.
 Print Assumptions C09_internal_new_var_calls_ok.
-Theorem C09_new_var_lin_unguarded_refuted :
-  let s := run refute_events init_state in
-  In (3%nat, mkLin [(2%nat, 2)] 0) (tableau s) /\ ~ (valq 0 (vals s) 3%nat == evalq (valq 0 (vals s)) (mkLin [(2%nat, 2)] 0)).
-Proof. exact new_var_lin_unguarded_refuted. Qed.
-Print Assumptions C09_new_var_lin_unguarded_refuted.
+Example C09_new_var_lin_over_basic_variable_with_known_term :
+  let s := run nvl_events init_state in
+  In (mkLin [(2%nat, 2)] 1, 3%nat) (exprs s) /\ valq 0 (vals s) 3%nat == evalq (valq 0 (vals s)) (mkLin [(2%nat, 2)] 1) /\
+  trow (tableau s) 3%nat = Some (mkLin [(0%nat, 2); (1%nat, 2)] 1).
+Proof. exact nvl_example. Qed.
+
+(* the public set_lb / set_ub (reason = the TRUE literal, root level; what executor.cpp calls): every lemma recorded is valid
+   and a reported conflict is valid in every model of the requested bound *)
+Theorem C09_set_bound_lemmas_and_conflicts_valid : forall s al d x v,
+  reach s -> layers s = [] -> (x < nvars s)%nat -> sign_ok (x, d, v) ->
+  let res := match d with Lower => assert_lower s al x v TRUE_lit | Upper => assert_upper s al x v TRUE_lit end in
+  (forall c, In c (r_lemmas (snd res)) -> clause_valid (fst res) c) /\
+  (r_ok (snd res) = false -> forall al' rho, model (fst res) al' rho -> (lit_holds al' TRUE_lit = true -> sat_atom rho (x, d, v)) ->
+                             existsb (lit_holds al') (r_cnfl (snd res)) = true).
+Proof. exact top_set_bound_sound. Qed.
+Print Assumptions C09_set_bound_lemmas_and_conflicts_valid.
 
 (* K2: the executable checkers run on the REAL lra_theory's dumped state, lemmas and conflicts (smt/LraCheck.v) are sound *)
 Theorem C09_K2_rows_hold_on_dumped_values : forall dmp, chk_rows_vals dmp = true -> forall d, sat_rows (d_rows dmp) (valq d (d_vals dmp)).
